@@ -400,6 +400,21 @@ def drive_configs(ctx: Ctx) -> None:
         for e in es:
             apply_edit(cfg, e)
         try_config(ctx, cls_name, cfg, frame, es, i, "configs_double")
+    # target names that resolve to one label more than once (similar-label merging, a name listed twice): every list is
+    # still per *entry* of the target list
+    for i in ctx.indices("configs_merged", 40 if ctx.quick else 3000):
+        r = ctx.rng("configs_merged", i)
+        task = r.choice(["detection", "tracking"])
+        cfg, frame = base_config(task)
+        names = r.choice([["car", "truck", "pedestrian"], ["car", "bus", "truck"], ["bicycle", "motorbike"], ["car", "car", "pedestrian"], ["pedestrian", "truck", "bus", "car"]])
+        n_ = len(names)
+        cfg.update(target_labels=names, merge_similar_labels=r.random() < 0.8, min_point_numbers=[0] * n_)
+        val = lambda: round(r.uniform(0.2, 3.0), 2)  # noqa: E731
+        for k in METRIC_KEYS:
+            shape = r.choice(["scalar", "flat", "nested_full", "nested_single"])
+            v = val() if k.startswith("center") or k.startswith("plane") else round(r.uniform(0.1, 0.9), 2)
+            cfg[k] = {"scalar": v, "flat": [v, v / 2], "nested_full": [[v] * n_, [v / 2] * n_], "nested_single": [[v], [v / 2]]}[shape]
+        try_config(ctx, "perception", cfg, frame, [], i, "configs_merged")
     # frame configs on top of a valid evaluation config
     from perception_eval.config import PerceptionEvaluationConfig
     from perception_eval.evaluation.result.perception_frame_config import CriticalObjectFilterConfig, PerceptionPassFailConfig
